@@ -267,6 +267,38 @@ void genCompanion(vf::Ctx& c, Case& cs) {
   cs.kind = "companion/form" + to_string(form) + "/pairs" + to_string(pairs);
   cs.specKnown = true; markRepeated(cs); if (cs.repeated) cs.jordan = true;  // companion matrices are non-derogatory
 }
+// block-triangular [D X; 0 C] (or its transpose / the blocks in the other order): D a small leading integer block, C the companion
+// matrix of prod (x - r_i)^m_i with one to three small integer roots of multiplicity >= 2. A strongly defective, clustered real
+// spectrum: the QR sweeps on the companion block stall (exceptional shifts at sweep 10 and 30) while other rows are still undeflated.
+void genClustered(vf::Ctx& c, Case& cs) {
+  int n = cs.n;
+  int lead = n >= 4 ? c.irange(0, std::min(3, n - 3)) : 0, m = n - lead;
+  vector<__int128> p(1, 1); int left = m; string roots;
+  while (left > 0) {
+    int r = static_cast<int>(c.zig(2)), mult = std::min(left, c.irange(2, 6));
+    for (int t = 0; t < mult; ++t) { vector<__int128> q(p.size() + 1, 0); for (size_t i = 0; i < p.size(); ++i) { q[i + 1] += p[i]; q[i] -= p[i] * r; } p = q; }
+    left -= mult; roots += "(" + to_string(r) + ")^" + to_string(mult);
+  }
+  Mat C = zeros(m); int form = static_cast<int>(c.below(4));
+  for (int i = 0; i + 1 < m; ++i) { if (form == 0 || form == 1) C[i + 1][i] = 1; else C[i][i + 1] = 1; }
+  for (int j = 0; j < m; ++j) {
+    double coef = -static_cast<double>(static_cast<long long>(p[static_cast<size_t>(j)]));
+    switch (form) { case 0: C[0][m - 1 - j] = coef; break; case 1: C[j][m - 1] = coef; break; case 2: C[m - 1][j] = coef; break; default: C[m - 1 - j][0] = coef; }
+  }
+  cs.A = zeros(n);
+  bool clusterFirst = c.flag(), coupled = c.flag(), lower = c.flag(), diagLead = c.flag();
+  int oc = clusterFirst ? 0 : lead, od = clusterFirst ? m : 0;
+  for (int i = 0; i < m; ++i) for (int j = 0; j < m; ++j) cs.A[oc + i][oc + j] = C[i][j];
+  for (int i = 0; i < lead; ++i) for (int j = 0; j < lead; ++j) if (!diagLead || i == j) cs.A[od + i][od + j] = static_cast<double>(c.zig(5));
+  if (coupled && lead > 0) {
+    // the off-diagonal block that keeps the matrix block triangular: rows of the first block x columns of the second (upper) or the reverse (lower)
+    int r0 = lower ? std::max(oc, od) : std::min(oc, od), c0 = lower ? std::min(oc, od) : std::max(oc, od);
+    int nr = (r0 == oc) ? m : lead, nc = (c0 == oc) ? m : lead;
+    for (int i = 0; i < nr; ++i) for (int j = 0; j < nc; ++j) if (c.oneIn(2)) cs.A[r0 + i][c0 + j] = static_cast<double>(c.zig(2));
+  }
+  cs.kind = "clustered/" + roots + "/form" + to_string(form) + "/lead" + to_string(lead) + (coupled ? (lower ? "/lower" : "/upper") : "/blockdiag") + (clusterFirst ? "/first" : "/last");
+  cs.repeated = true; cs.jordan = true;
+}
 // cyclic shift with corner +-1: companion of x^n -+ 1 (roots of unity; needs the exceptional shifts)
 void genCyclic(vf::Ctx& c, Case& cs) {
   int n = cs.n; bool neg = c.flag(); bool transposed = c.flag();
@@ -516,7 +548,8 @@ void nontrivial(vf::Ctx& c, const Case& cs, const Outcome& o) { c.nt((!o.sym && 
 // ------------------------------------------------------------------ L1: every generator class, every storage class
 LAW(L1_decomposition, RC, 20000, 600000, 420, "non-symmetric with >=1 complex pair, or n>=3, or graded, or repeated eigenvalue", 30, true) {
   Case cs; cs.n = c.irange(1, 12); cs.storage = static_cast<int>(c.below(3));
-  switch (c.weighted({1, 4, 2, 2, 3, 1, 4, 3})) {
+  switch (c.weighted({1, 4, 2, 2, 3, 1, 4, 3, 2})) {
+    case 8: genClustered(c, cs); break;
     case 0: genSpecial(c, cs); break;
     case 1: genDense(c, cs); break;
     case 2: genSymmetricDense(c, cs); if (c.oneIn(5)) breakSymmetry(c, cs); break;
@@ -530,7 +563,7 @@ LAW(L1_decomposition, RC, 20000, 600000, 420, "non-symmetric with >=1 complex pa
   describe(c, cs);
   Outcome o = checkDecomposition(c, cs);
   nontrivial(c, cs, o);
-  c.label(cs.kind.substr(0, cs.kind.find('/')) == "spectral" ? "spectral" : cs.kind.substr(0, cs.kind.find('/')) == "companion" ? "companion" : "other");
+  c.label(cs.kind.substr(0, cs.kind.find('/')) == "spectral" ? "spectral" : cs.kind.substr(0, cs.kind.find('/')) == "companion" ? "companion" : cs.kind.substr(0, cs.kind.find('/')) == "clustered" ? "clustered" : "other");
   if (o.pairs) c.label("has complex pair");
 }
 
